@@ -13,6 +13,7 @@ type Plan struct {
 	Burst      bool                    `json:"burst,omitempty"`       // now and then release all parked goroutines at once
 	SnapObs    bool                    `json:"snap_obs,omitempty"`    // observe the state file at every step of every snapshot write (C12)
 	SnapSpin   int                     `json:"snap_spin,omitempty"`   // microseconds of real time spent inside snapshot steps
+	ReadSpin   map[string]int          `json:"read_spin,omitempty"`   // target -> microseconds: after a barrier burst, the first read of that target's state is preceded by this much real time
 	BurstEvery int                     `json:"burst_every,omitempty"` // a burst is tried every n-th step on average (default 6)
 	Lanes      [][]Cmd                 `json:"lanes"`
 	Clients    [][]Req                 `json:"clients"`
